@@ -1667,6 +1667,9 @@ class Interp:
                 return [st]
             t = self.NEG[t]
         if t in (ast.Is, ast.IsNot):
+            if isinstance(a, Iv) and isinstance(b, Iv) and a.const and b.const and a.prec and b.prec:
+                same = a.lo == b.lo  # identity of enum members / small ints coincides with equality
+                return [st] if same == (t is ast.Is) else []
             # None tests
             for x, y, ex in ((a, b, l), (b, a, r)):
                 if isinstance(y, NoneV):
